@@ -45,8 +45,10 @@ def schedules(pid, tier, seed):
         n = 60 if q else 400
         for i in range(n):
             bub.append(g.sender(nid(), wrap=[254, 255, 256, 510][i % 4] if i % 6 == 5 else 0, tcp=(i % 7 == 6)))
+        for i in range(6 if q else 40):
+            bub.append(g.ack_once(nid()))
         for i in range(16 if q else 96):
-            real.append(g.senders_rt(nid(), reconnect=(i % 2 == 1)))
+            real.append(g.senders_rt(nid(), reconnect=(i % 2 == 1), group=(i % 4 == 2)))
     elif pid == 'C04':
         n = 60 if q else 400
         for i in range(n):
@@ -57,10 +59,12 @@ def schedules(pid, tier, seed):
         n = 60 if q else 400
         for i in range(n):
             bub.append(g.link(nid(), wrap=[254, 257][i % 2] if i % 8 == 7 else 0))
+        for i in range(6 if q else 30):
+            bub.append(g.tele_across_reconnect(nid()))
         for i in range(12 if q else 80):   # the application reads at its own pace (stalled / intermittent): parked deliveries
             bub.append(g.burst(nid(), 3 + (i * 5) % 40, ['intermittent', 'stalled'][i % 2]))
         for i in range(16 if q else 96):
-            real.append(g.senders_rt(nid(), reconnect=False))
+            real.append(g.senders_rt(nid(), reconnect=False, group=(i % 3 == 2)))   # (every third through GroupTunnel)
     elif pid == 'C09':
         n = 80 if q else 500
         for i in range(n):
@@ -76,6 +80,8 @@ def schedules(pid, tier, seed):
             bub.append(g.close_in_reconnect(nid()))
         for i in range(4 if q else 16):
             bub.append(g.close_on_channel(nid(), [0, 255, 0, 1][i % 4]))
+        for i in range(3 if q else 12):
+            real.append(g.close_after_disc_in_heartbeat_rt(nid()))
     elif pid == 'C17':
         n = 60 if q else 300
         for i in range(n):
